@@ -73,6 +73,26 @@ CHECKS = {
              "layer names distinct, object layers non-empty and different from the subject. Trusted: Coq kernel, extraction, driver, harness.",
         technique="Coq proof (reduction to strict module rule + bucket analysis) + model/implementation correspondence",
         design="5/C05"),
+    "C14": dict(
+        text="Free theorem (Paramcoq parametricity translation of the model's own definitions, Closed under the global context): the core model is parametric in the component type and uses only ceqb, "
+             "hence for ANY injective renaming f of path components the verdict, violation lines (C14_rule_rename_invariant) and layer verdicts / layer attributions (C14_layer_rename_invariant) "
+             "commute with f; C14_render_prefix: on dotted strings the component prefix order is exactly 'equal or starts with name + dot' (the test every name comparison in the code must use). "
+             "Tie to /repo: every case materialised under three namings on the real code - collision-free and two adversarial pools (a, ab, a_b, aa, ...) - real outcomes compared modulo the renaming "
+             "(module rules, layer rules, plot labels), plus model agreement.",
+        note="Regex specifications are outside the claim (renaming changes what they match): hypothesis rm_agree. Label invariance is by C17's theorems + metamorphic check. "
+             "Trusted: Coq kernel, the Paramcoq plugin only generates terms that the kernel re-checks, extraction, driver, harness.",
+        technique="Coq free theorem via Paramcoq + string-level lemma + metamorphic double materialisation on the implementation",
+        design="5/C14"),
+    "C17": dict(
+        text="Theorems (Coq, all alias maps and module names, string level): the label of a module at or below an aliased module is the alias of the most specific aliased module (by dotted components) "
+             "plus the rest of its name (C17_label_most_specific, via the sorted-longest-first/first-match argument and C14_render_prefix); every other module keeps its name (C17_label_unaliased); "
+             "every module labelled exactly once (C17_total); alias for a non-existent module rejected naming it (C17_unknown_alias); other drawing options passed through (C17_kwargs). "
+             "Tie to /repo: random trees x alias maps (nested, prefix siblings, alias strings with dots/metacharacters/backslashes) x spacing on/off, keyword arguments observed at the intercepted "
+             "draw_networkx / spring_layout; documented labelling evaluated directly on the real code; model labels compared.",
+        note="re.sub('^key', '', name) is modelled as dropping len(key) characters (module names are identifiers joined by dots, so the only regex metacharacter in a key is '.', which matches the literal dot at that position). "
+             "matplotlib/networkx drawing itself is not exercised (backend intercepted). Trusted: Coq kernel, extraction, driver, harness.",
+        technique="Coq proof (string-level render/prefix lemmas, insertion sort) + model/implementation correspondence at the drawing backend",
+        design="5/C17"),
     "C08": dict(
         text="Theorems (Coq, all patterns and all newline-free path strings, no bound): the glob->regex converter always emits a regex of the "
              "modelled fragment that parses back to (leading star, literal text, trailing star), and convert+re.match equals the documented "
